@@ -49,11 +49,14 @@ class Unit:
     for v in self.selfattrs.values():
       add(v)
     for v in self.stubs.values():
-      add(v)
+      if not callable(v):
+        add(v)
     return ps
 
 
 def _mk(v):
+  if callable(v):   # a stub given as a function (ev, call node) -> value
+    return v
   if isinstance(v, tuple) and v and v[0] == "stub":
     outs = v[1]
     return lambda ev, n: _mk(outs) if not isinstance(outs, list) else tuple(_mk(o) for o in outs)
